@@ -1,0 +1,24 @@
+//go:build verif
+
+package registry
+
+// Verification hooks (build tag `verif` only): thin accessors for unexported items the
+// correspondence harness of /verif must drive. No production behaviour.
+
+// VerifSetChaosHook installs fn as the chaos hook fired at the named points of Install /
+// TrustedVerifier.VerifyIndex (see chaos.go); nil removes it.
+func VerifSetChaosHook(fn func(point string)) { chaosHook = fn }
+
+// VerifChaosPoints lists the chaos point names in pipeline order.
+func VerifChaosPoints() []string {
+	return []string{
+		chaosPointIndexStateBeforeWrite,
+		chaosPointDownloadComplete,
+		chaosPointExtractComplete,
+		chaosPointPrerenameFDOpened,
+		chaosPointPostRenamePreManifest,
+	}
+}
+
+// VerifMaxExtractedBytes exposes the decompression cap of ExtractBinary.
+const VerifMaxExtractedBytes = maxExtractedBytes
